@@ -163,6 +163,8 @@ def r12_3(run):
     seedf = anchor_func(run, f"{TENSOR}.backward")
     ss = I.analyse(seedf)
     for node, recv, attr, val in ss.stores:
+        if recv.startswith("<"):
+            continue
         if attr == "_grad" and not (isinstance(node, ast.Assign) and is_none_value(node.value)):
             nonfresh = [(o, r) for o, r in val.origins if not o.startswith("N:")]
             run.ob("R12.3", loc(seedf, node), seedf.short, f"seed stored into {recv}._grad is engine-owned", not nonfresh,
@@ -173,8 +175,10 @@ def r12_3(run):
     if gb is not None:
         sg = I.analyse(gb)
         for node, recv, attr, val in sg.stores:
+            if recv.startswith("<"):
+                continue  # store made inside a callee: judged at its own site / through the binding check below
             if attr == "_grad" and not is_none_value(getattr(node, "value", None)):
-                nonfresh = [(o, r) for o, r in val.origins if not o.startswith("N:")]
+                nonfresh = [(o, r) for o, r in val.origins if not o.startswith("N:") and o != "U"]
                 run.ob("R12.3", loc(gb, node), gb.short, f"array stored into {recv}._grad is engine-owned", not nonfresh,
                        "fresh" if not nonfresh else "may be " + ", ".join(f"{r}({o})" for o, r in sorted(nonfresh)))
         bp = run.project.functions.get("mygrad.nnet.layers.gru._backprop")
